@@ -1,6 +1,7 @@
 import AgVerif.Model.Proto
 import AgVerif.Model.Order
 import AgVerif.Model.Intervals
+import AgVerif.Model.DerivedSeq
 open AgVerif AgVerif.Proto AgVerif.Order
 
 /-- "1,2,3" → [1,2,3]; "-" → [] -/
@@ -82,6 +83,21 @@ def handle (line : String) : String :=
       let preds := fun n => (es.filter (fun e => e.2 == n)).map Prod.fst
       (match Intervals.intervals preds order nodes entry with
        | some r => ";".intercalate (r.map fun p => toString p.1 ++ ":" ++ ".".intercalate (p.2.map toString))
+       | none => "fuel")
+    | _, _, _ => "bad-op"
+  | ["dseq", es, nodes, entry] => match pairs ">" es, csv nodes, entry.toNat? with
+    | some es, some nodes, some entry =>
+      -- level 0 as in `intv`; the derived levels use the `compute_rpo` model of C19 (Model/Rpo.lean)
+      let order := ((postOrder (sucsOf es) entry (4 * es.length + 8)).reverse).drop 1
+      let preds := fun n => (es.filter (fun e => e.2 == n)).map Prod.fst
+      (match DerivedSeq.derivedSequence ⟨preds, order, nodes, entry⟩ with
+       | some steps => " / ".intercalate (steps.map fun st =>
+           let hs := st.heads.map Prod.fst
+           ";".intercalate (st.heads.map fun p => toString p.1 ++ ":" ++ ".".intercalate (p.2.map toString))
+           ++ " E " ++ (if st.recs.isEmpty then "-" else ",".intercalate (st.recs.map fun r => toString r.1 ++ ">" ++ toString r.2))
+           ++ " P " ++ ";".intercalate ((List.range hs.length).map fun i => showCsv (DerivedSeq.intervalPreds hs st.recs i))
+           ++ " R " ++ showCsv st.rpo
+           ++ " e " ++ toString st.entry)
        | none => "fuel")
     | _, _, _ => "bad-op"
   | _ => "bad-op"
